@@ -6,17 +6,20 @@
     directory of dfan.c, over the element layer's specification; constants, the key macros, ANIanncmp, the
     UINT16 codec, all type<->tag switches and the truncation / match conditions come from coq/gen/Gen_AN.v.
     S = ANSpec.v: the finite map (type, ref) |-> (target, text).
-    "Reachable" = produced from the initial state by ANY sequence of harness steps (every AN and DFAN call of the
-    property's quantifier) whose annotation-type arguments are 0..3 ([op_types_ok]; other values index
+    "Reachable" = the library tables of ANY file [f] after ANY sequence of harness steps (every AN and DFAN call of
+    the property's quantifier, on several files used alternately in one process: [GFile n] switches the file, the
+    dfan.c statics are shared) whose annotation-type arguments are 0..3 ([gop_ok]; other values index
     file_rec->an_num[] out of bounds in C). *)
 From Coq Require Import ZArith List Bool.
-Require Import H4.gen.Gen_AN H4.ANSpec H4.ANModel H4.ANProofs H4.ANProofs2.
+Require Import H4.ANLang H4.gen.Gen_AN H4.ANSpec H4.ANModel H4.ANProofs H4.ANProofs2.
 Import ListNotations.
 Local Open Scope Z_scope.
 
 (** every reachable state of the library tables satisfies the invariant [Inv] the theorems below start from *)
-Theorem an_reachable_invariant : forall ops, Forall op_types_ok ops -> Inv (h_lib (mrun hinit ops)).
-Proof. intros ops H. exact (reachable_Inv ops hinit Inv_init H). Qed.
+Definition reach (names : Z -> list Z) (xs : list gop) (f : Z) : lstate := h_lib (g_files (grun (ginit names) xs) f).
+
+Theorem an_reachable_invariant : forall names xs f, Forall gop_ok xs -> Inv (reach names xs f).
+Proof. intros names xs f H. exact (greachable_Inv xs (ginit names) (ginit_Inv names) H f). Qed.
 Print Assumptions an_reachable_invariant.
 
 (** payload: 4-byte target prefix (data annotations) + text; any bytes, embedded NULs included *)
@@ -31,12 +34,12 @@ Print Assumptions an_payload_roundtrip.
 (** identifiers <-> stored tag/ref pairs, one-to-one, in every reachable state: two identifiers with the same
     tag/ref are the same identifier; ANtagref2id inverts ANid2tagref, and ANid2tagref inverts ANtagref2id.
     (Before the fix of ANIcreate this fails: see design.d/C11.md, defect 18.) *)
-Theorem an_id_bijection : forall ops, Forall op_types_ok ops ->
-  let s := h_lib (mrun hinit ops) in
+Theorem an_id_bijection : forall names xs f, Forall gop_ok xs ->
+  let s := reach names xs f in
   (forall id1 id2 tr, ANid2tagref s id1 = Some tr -> ANid2tagref s id2 = Some tr -> id1 = id2) /\
   (forall id g r, ANid2tagref s id = Some (g, r) -> ANtagref2id s g r = (s, id)) /\
   (forall g r s' id, 0 <= r < 65536 -> ANtagref2id s g r = (s', id) -> id <> FAILV -> ANid2tagref s' id = Some (g, r)).
-Proof. intros ops H. exact (id_bijection_lemma _ (reachable_Inv ops hinit Inv_init H)). Qed.
+Proof. intros names xs f H. exact (id_bijection_lemma _ (greachable_Inv xs (ginit names) (ginit_Inv names) H f)). Qed.
 Print Assumptions an_id_bijection.
 
 (** a new annotation never takes a ref that is in the tree (created, perhaps unwritten) or in the file *)
@@ -50,8 +53,8 @@ Print Assumptions an_new_ref_fresh.
 (** (re)writing one annotation: no identifier changes its tag/ref, no tree changes, the bytes of every other
     annotation are untouched, the written one holds its recorded target + the new text, and the directory
     order is kept (rewrite in place) or extended by one (first write) *)
-Theorem an_rewrite_preserves_others : forall ops id text s' ok, Forall op_types_ok ops ->
-  let s := h_lib (mrun hinit ops) in
+Theorem an_rewrite_preserves_others : forall names xs f id text s' ok, Forall gop_ok xs ->
+  let s := reach names xs f in
   ANIwriteann s id text = (s', ok) ->
   (forall id', ANid2tagref s' id' = ANid2tagref s id') /\
   l_tree s' = l_tree s /\ l_num s' = l_num s /\
@@ -64,7 +67,10 @@ Theorem an_rewrite_preserves_others : forall ops id text s' ok, Forall op_types_
         | Some _ => map (fun d => (d_tag d, d_ref d)) (l_dds s)
         | None => map (fun d => (d_tag d, d_ref d)) (l_dds s) ++ [(tag, ref)]
         end).
-Proof. intros ops id text s' ok H s. exact (rewrite_preserves_lemma _ _ _ _ _ (reachable_Inv ops hinit Inv_init H)). Qed.
+Proof.
+  intros names xs f id text s' ok H s.
+  exact (rewrite_preserves_lemma _ _ _ _ _ (greachable_Inv xs (ginit names) (ginit_Inv names) H f)).
+Qed.
 Print Assumptions an_rewrite_preserves_others.
 
 (** PARTIAL (an_list_exact): (1) ANannlist/ANnumann return, without repetition, exactly the identifiers of the tree
@@ -76,21 +82,23 @@ Print Assumptions an_rewrite_preserves_others.
     ANSpec.on_target -- is NOT proved (missing lemma: that invariant across ANIcreate / ANIwriteann / ANend and the
     DFAN calls made between sessions); that link rests on the R-vs-S correspondence. *)
 Theorem an_list_exact_partial :
-  (forall ops ty g r s' ids, Forall op_types_ok ops -> tyok ty ->
-     ANIannlist (h_lib (mrun hinit ops)) ty g r = (s', Some ids) ->
+  (forall names xs f ty g r s' ids, Forall gop_ok xs -> tyok ty ->
+     ANIannlist (reach names xs f) ty g r = (s', Some ids) ->
      exists t, l_tree s' ty = Some t /\ NoDup ids /\
        (forall id, In id ids <-> exists k e, In (k, e) t /\ e_elmtag e = g /\ e_elmref e = r /\ e_id e = id) /\
-       ANInumann (h_lib (mrun hinit ops)) ty g r = (s', zlen ids)) /\
-  (forall ops ty tag s' n, Forall op_types_ok ops ->
-     let s := h_lib (mrun hinit ops) in
+       ANInumann (reach names xs f) ty g r = (s', zlen ids)) /\
+  (forall names xs f ty tag s' n, Forall gop_ok xs ->
+     let s := reach names xs f in
      atype2tag ty = Some tag -> l_num s ty = -1 -> ANIcreate_ann_tree s ty = (s', n) -> n <> FAILV ->
      n = hnumber tag (l_dds s) /\
      exists t, l_tree s' ty = Some t /\
        forall k, In k (tkeys t) <-> exists d, In d (l_dds s) /\ d_tag d = tag /\ k = AN_CREATE_KEY ty (d_ref d)).
 Proof.
   split.
-  - intros ops ty g r s' ids H Hty. exact (annlist_exact_lemma _ _ _ _ _ _ (reachable_Inv ops hinit Inv_init H) Hty).
-  - intros ops ty tag s' n H s. exact (create_tree_exact_lemma _ _ _ _ _ (reachable_Inv ops hinit Inv_init H)).
+  - intros names xs f ty g r s' ids H Hty.
+    exact (annlist_exact_lemma _ _ _ _ _ _ (greachable_Inv xs (ginit names) (ginit_Inv names) H f) Hty).
+  - intros names xs f ty tag s' n H s.
+    exact (create_tree_exact_lemma _ _ _ _ _ (greachable_Inv xs (ginit names) (ginit_Inv names) H f)).
 Qed.
 Print Assumptions an_list_exact_partial.
 
@@ -103,13 +111,27 @@ Print Assumptions an_list_exact_partial.
     vs. map order, reopen dropping unwritten entries, the DFAN directory); missing lemma: the abstraction function
     from (descriptors, trees, atoms, DFAN directory) to ANSpec.state commutes with every step.  That part rests on
     the R-vs-S and R-vs-M correspondence. *)
-Theorem an_refines_map_partial : forall ops id txt s' maxlen, Forall op_types_ok ops ->
-  let s := h_lib (mrun hinit ops) in
+Theorem an_refines_map_partial : forall names xs f id txt s' maxlen, Forall gop_ok xs ->
+  let s := reach names xs f in
   ANIwriteann s id txt = (s', true) -> 1 <= maxlen ->
   exists tag ref, ANid2tagref s id = Some (tag, ref) /\ ANid2tagref s' id = Some (tag, ref) /\
     ANIreadann s' id maxlen = Some (buffer_image (is_label_tag tag) txt maxlen) /\ ANIannlen s' id = zlen txt.
-Proof. intros ops id txt s' maxlen H s. exact (write_then_read_lemma _ _ _ _ _ (reachable_Inv ops hinit Inv_init H)). Qed.
+Proof.
+  intros names xs f id txt s' maxlen H s.
+  exact (write_then_read_lemma _ _ _ _ _ (greachable_Inv xs (ginit names) (ginit_Inv names) H f)).
+Qed.
 Print Assumptions an_refines_map_partial.
+
+(** several files in one process: DFANIopen keeps the cached DFAN directory exactly when the file name is the one
+    used last (names are C strings shorter than DF_MAXFNLEN; not in create mode).  The condition is regenerated
+    from dfan.c: a prefix test, a shorter comparison length or a case-insensitive compare breaks this proof. *)
+Theorem dfan_open_keeps_directory_iff_same_name : forall lastfile name mode,
+  nonul lastfile -> nonul name -> strlen lastfile < DF_MAXFNLEN -> strlen name < DF_MAXFNLEN -> mode <> DFACC_CREATE ->
+  (truth (DFANIopen_newfile lastfile name mode) = false <-> lastfile = name) /\
+  (forall st, DFANIopen lastfile name mode st = if truth (DFANIopen_newfile lastfile name mode)
+                                               then mkdf (fun _ => None) (s_lastref st) (s_nextf st) (s_nomore st) else st).
+Proof. intros a b m H1 H2 H3 H4 H5. split; [exact (dfan_open_lemma a b m H1 H2 H3 H4 H5) | reflexivity]. Qed.
+Print Assumptions dfan_open_keeps_directory_iff_same_name.
 
 (** the regenerated pieces: keys are injective and invertible on type 0..32767 x ref 0..65535; the ten
     type<->tag switch statements of mfan.c agree with ANatype2tag *)
@@ -132,8 +154,20 @@ Print Assumptions an_switches_agree.
 Definition demo_ops : list op :=
   [OStart; OCreate 0 0 700 1 0; OCreate 1 0 700 1 0; OCreatef 2 3 0; OWrite 1 [66; 0; 66]; OWrite 0 [65];
    OWrite 0 [65; 65; 65; 65]; OAnnlist 0 700 1; OEnd; OStart; OSelectAll 0].
-Example demo_types_ok : Forall op_types_ok demo_ops.
+Example demo_types_ok : Forall gop_ok (map GOp demo_ops).
 Proof. repeat constructor; unfold tyok; simpl; auto with zarith. Qed.
+Definition nm (c : Z) : list Z := [104; c].       (* file names "h0", "h1", .. *)
+Example demo_two_files_share_the_directory_cache :
+  (* label 700/1 in file 0, label 700/2 in file 1, then ask file 0 again: the name differs, the cache is dropped *)
+  let g := grun (ginit (fun n => nm (48 + n)))
+                [GOp (ODfPut 0 700 1 [65] 0); GFile 1; GOp (ODfPut 0 700 2 [66; 66] 0); GFile 0] in
+  snd (gstep g (ODfGet 0 700 1 4)) = MOk [] [[65; 0; 238; 238]] /\ snd (gstep g (ODfGet 0 700 2 4)) = MFail /\
+  truth (DFANIopen_newfile (nm 49) (nm 48) DFACC_READ) = true.
+Proof. vm_compute. repeat split. Qed.
+Example demo_prefix_names_are_different_files :
+  truth (DFANIopen_newfile [120; 46; 104; 46; 98] [120; 46; 104] DFACC_RDWR) = true /\ nonul [120; 46; 104] /\
+  truth (DFANIopen_newfile [120; 46; 104] [120; 46; 104] DFACC_RDWR) = false.
+Proof. split; [vm_compute; reflexivity|]. split; [|vm_compute; reflexivity]. intros x [H|[H|[H|[]]]]; subst; discriminate. Qed.
 Example demo_ids_distinct :
   let s := h_lib (mrun hinit [OStart; OCreate 0 0 700 1 0; OCreate 1 0 700 1 0]) in
   ANid2tagref s 0 = Some (104, 1) /\ ANid2tagref s 1 = Some (104, 2) /\ ANtagref2id s 104 2 = (s, 1).
